@@ -118,6 +118,8 @@ class NDInterp(Interp):
         m['cumsum'] = Builtin('np.cumsum', s.np_cumsum)
         m['rot90'] = Builtin('np.rot90', s.np_rot90)
         m['pad'] = Builtin('np.pad', s.np_pad)
+        m['gradient'] = Builtin('np.gradient', s.np_gradient)
+        m['convolve'] = Builtin('np.convolve', s.np_convolve)
         m['linalg'] = Module('linalg', {'norm': Builtin('norm', s.np_norm)})
         m['power'] = Builtin('np.power', lambda a, k: s.map2(lambda x, y: s.uf_app('power', x, y), s.asarr(a[0]), s.asarr(a[1])))
         m['arccos'] = Builtin('np.arccos', lambda a, k: s.map1(lambda x: s.uf_app('arccos', x), a[0]))
@@ -402,13 +404,19 @@ class NDInterp(Interp):
         import ast
         from .interp import Env
         if it.coords is None or st.orelse:
+            s._ml_why(1)
             return None
         sizes, fn = it.coords
         # body: [pure local assignments ...] + one or more stores  ARR[INDEXEXPR] = VALUE
-        body = list(st.body)
-        stores = [b for b in body if isinstance(b, ast.Assign) and len(b.targets) == 1 and isinstance(b.targets[0], ast.Subscript)]
-        if not stores or any(isinstance(x, (ast.Break, ast.Continue, ast.Return)) for b in body for x in ast.walk(b)):
+        body = s.flatten_inner_loops(list(st.body), env)
+        if body is None:
+            s._ml_why(2)
             return None
+        cand = [b for b in body if isinstance(b, ast.Assign) and len(b.targets) == 1 and isinstance(b.targets[0], ast.Subscript)]
+        if not cand or any(isinstance(x, (ast.Break, ast.Continue, ast.Return)) for b in body for x in ast.walk(b)):
+            s._ml_why(3)
+            return None
+        stores = []         # filled while planning: subscript assignments whose target is an n-d array (others are local list/dict updates)
         # symbolic placeholders for the box coordinates
         J = [Sym(z3.Int(f'J!{j}!{next(s.counter)}'), 'int') for j in range(len(sizes))]
         saved_pc = list(s.pc)
@@ -418,9 +426,15 @@ class NDInterp(Interp):
         s.assign(st.target, fn(J), e2)
         plans = []
         for b in body:
+            if b in cand and isinstance(s.ev(b.targets[0].value, e2), NDArr):
+                stores.append(b)
             if b not in stores:
-                if not isinstance(b, ast.Assign) or any(not isinstance(t_, ast.Name) for t_ in b.targets):
+                ok_local = isinstance(b, ast.Assign) and all(isinstance(t_, ast.Name) or
+                                                              (isinstance(t_, ast.Subscript) and isinstance(t_.value, ast.Name) and
+                                                               isinstance(e2.vars.get(t_.value.id), (list, dict))) for t_ in b.targets)
+                if not ok_local:
                     s.pc[:] = saved_pc
+                    s._ml_why(4)
                     return None
                 s.exec(b, e2)
                 continue
@@ -428,6 +442,7 @@ class NDInterp(Interp):
             arr = s.ev(tgt.value, e2)
             if not isinstance(arr, NDArr) or not arr.is_whole():
                 s.pc[:] = saved_pc
+                s._ml_why(5)
                 return None
             index = s.ev(tgt.slice, e2)
             index = list(index) if isinstance(index, (tuple, list)) else [index]
@@ -440,17 +455,23 @@ class NDInterp(Interp):
                     hit = [j for j, Jj in enumerate(J) if z3.simplify(comp.t).eq(Jj.t)]
                     if len(hit) != 1 or hit[0] in perm.values():
                         s.pc[:] = saved_pc
+                        s._ml_why(6)
                         return None
                     perm[pos] = hit[0]
                 elif not isinstance(comp, int):
                     s.pc[:] = saved_pc
+                    s._ml_why(7)
                     return None
-            if sorted(perm.values()) != list(range(len(J))):
+            missing = [j for j in range(len(J)) if j not in perm.values()]
+            if any(dim_eq(s, sizes[j], 1) is not True for j in missing):
+                # a box coordinate may be absent from the written index only when its extent is 1
                 s.pc[:] = saved_pc
+                s._ml_why(8)
                 return None
             for pos, j in perm.items():
                 if dim_eq(s, arr.shape[pos], sizes[j]) is not True:
                     s.pc[:] = saved_pc
+                    s._ml_why(9)
                     return None
             plans.append((b, arr, index, perm))
         s.pc[:] = saved_pc
@@ -458,9 +479,20 @@ class NDInterp(Interp):
             old = arr.buf.get
             tgt = b.targets[0]
 
-            def get(bidx, b=b, arr=arr, index=index, perm=perm, old=old, tgt=tgt):
+            depth0 = s.call_depth
+
+            def get(bidx, b=b, arr=arr, index=index, perm=perm, old=old, tgt=tgt, depth0=depth0):
+                # lazily evaluated: runs with the call depth of the loop (callees under contract stay modular)
+                saved_depth = s.call_depth
+                s.call_depth = max(saved_depth, depth0)
+                try:
+                    return get_(bidx, b, arr, index, perm, old, tgt)
+                finally:
+                    s.call_depth = saved_depth
+
+            def get_(bidx, b, arr, index, perm, old, tgt):
                 # the iteration that writes cell bidx: J_j := bidx[pos] for perm[pos] = j
-                Jv = [None] * len(J)
+                Jv = [0] * len(J)          # coordinates of extent 1 (absent from the index) are 0
                 for pos, j in perm.items():
                     Jv[j] = bidx[pos]
                 e3 = Env(env)
@@ -494,6 +526,40 @@ class NDInterp(Interp):
             arr.buf.get = get
             arr.buf.version += 1
         return True
+
+    def _ml_why(s, k):
+        import os
+        if os.environ.get('PYVC_DEBUG'):
+            print('map-loop rule not applicable: exit point', k)
+
+    def flatten_inner_loops(s, body, env):
+        """`for v in <concrete range>: <stores / local assignments>` inside a map-loop body is unrolled into
+        `v = c0; ...; v = c1; ...` (fresh copies of the statements per iteration); None if the shape does not fit"""
+        import ast, copy
+        out = []
+        for b in body:
+            if isinstance(b, ast.For):
+                if b.orelse or not isinstance(b.target, ast.Name):
+                    return None
+                if not (isinstance(b.iter, ast.Call) and isinstance(b.iter.func, ast.Name) and b.iter.func.id == 'range' and len(b.iter.args) == 1):
+                    return None
+                try:
+                    n = s.ev(b.iter.args[0], env)
+                except (Unsupported, PyRaise, KeyError):
+                    return None
+                if isinstance(n, bool) or not isinstance(n, int):
+                    return None
+                for c in range(n):
+                    asg = ast.Assign(targets=[ast.Name(id=b.target.id, ctx=ast.Store())], value=ast.Constant(value=c), lineno=b.lineno, col_offset=0)
+                    ast.fix_missing_locations(asg)
+                    out.append(asg)
+                    inner = s.flatten_inner_loops([copy.deepcopy(x) for x in b.body], env)
+                    if inner is None:
+                        return None
+                    out += inner
+            else:
+                out.append(b)
+        return out
 
     # ------------------------------------------------------------------ helpers
     def asarr(s, v):
@@ -1106,6 +1172,92 @@ class NDInterp(Interp):
         out = s.fresh_buf(arr.shape, get, 'float', 'cumsum')
         out.ghost_prefix = (P, axis, arr)
         return out
+
+    def np_gradient(s, a, k):
+        """[A] np.gradient(f, dx, edge_order=e) of a 1-d array of length m >= e + 1 with uniform spacing dx:
+          interior  (f[k+1] - f[k-1]) / (2 dx)
+          e = 1:    (f[1] - f[0]) / dx                          and  (f[m-1] - f[m-2]) / dx
+          e = 2:    (-3 f[0] + 4 f[1] - f[2]) / (2 dx)          and  (3 f[m-1] - 4 f[m-2] + f[m-3]) / (2 dx)"""
+        arr = a[0]
+        if not isinstance(arr, NDArr) or len(arr.shape) != 1 or len(a) != 2:
+            raise Unsupported('np.gradient: only 1-d arrays with one uniform spacing')
+        dx = a[1]
+        e = k.get('edge_order', 1)
+        if e not in (1, 2) or any(kk not in ('edge_order',) for kk in k):
+            raise Unsupported('np.gradient options')
+        arr = arr.frozen()
+        m = arr.shape[0]
+        ok = s.cmp('>=', m, e + 1)
+        if ok is not True and (ok is False or s.decide(B(ok)) is not True):
+            if ok is False or not s.branch(B(ok)):
+                raise PyRaise('ValueError', note='Shape of array too small to calculate a numerical gradient')
+        A = lambda i: arr.at(s, [i])
+        sub = lambda x, y: s.arith('-', x, y)
+        mul = lambda c, x: s.arith('*', c, x)
+        two_dx = s.arith('*', 2, dx)
+
+        def get(idx):
+            kk = idx[0]
+            last = sub(m, 1)
+            if e == 1:
+                first = s.cell_div(sub(A(1), A(0)), dx)
+                end = s.cell_div(sub(A(last), A(sub(m, 2))), dx)
+            else:
+                first = s.cell_div(sub(s.arith('+', mul(-3, A(0)), mul(4, A(1))), A(2)), two_dx)
+                end = s.cell_div(s.arith('+', sub(mul(3, A(last)), mul(4, A(sub(m, 2)))), A(sub(m, 3))), two_dx)
+            is_first, is_last = s.cmp('==', kk, 0), s.cmp('==', kk, last)
+            if is_first is True:
+                return first
+            if is_last is True:
+                return end
+            # the interior formula is only read for 0 < k < m-1 (indices k-1, k+1 in range there)
+            inner = s.cell_div(sub(A(s.arith('+', kk, 1)), A(sub(kk, 1))), two_dx)
+            r = inner
+            if is_last is not False:
+                r = s.ite(is_last, end, r)
+            if is_first is not False:
+                r = s.ite(is_first, first, r)
+            return r
+        return s.fresh_buf([m], get, 'float', 'gradient')
+
+    def np_convolve(s, a, k):
+        """[A] np.convolve(f, v, 'same') for a 1-d array f of length m >= 3 and a 3-element kernel v:
+        out[k] = v[0] f[k+1] + v[1] f[k] + v[2] f[k-1] with f = 0 outside [0, m)"""
+        arr, v = a[0], a[1]
+        mode = a[2] if len(a) > 2 else k.get('mode', 'full')
+        v = [s.pyscalar(x) for x in s.iter_(v)]
+        if not isinstance(arr, NDArr) or len(arr.shape) != 1 or mode != 'same' or len(v) != 3:
+            raise Unsupported('np.convolve: only (1-d array, 3-element kernel, "same")')
+        arr = arr.frozen()
+        m = arr.shape[0]
+        if s.decide(B(s.cmp('>=', m, 3))) is not True if not isinstance(m, int) else m < 3:
+            raise Unsupported('np.convolve "same" with an array shorter than the kernel')
+
+        def get(idx):
+            kk = idx[0]
+            up, dn = s.arith('+', kk, 1), s.arith('-', kk, 1)
+            has_up, has_dn = s.cmp('<', up, m), s.cmp('>=', dn, 0)
+            # guarded reads: the neighbour is only read where it exists (in-range index otherwise)
+            fu = arr.at(s, [s.ite(has_up, up, kk) if has_up is not True else up])
+            fd = arr.at(s, [s.ite(has_dn, dn, kk) if has_dn is not True else dn])
+            t_up = s.ite(has_up, fu, 0.0) if has_up is not True else fu
+            t_dn = s.ite(has_dn, fd, 0.0) if has_dn is not True else fd
+            r = s.arith('*', v[0], t_up)
+            r = s.arith('+', r, s.arith('*', v[1], arr.at(s, [kk])))
+            return s.arith('+', r, s.arith('*', v[2], t_dn))
+        return s.fresh_buf([m], get, 'float', 'convolve')
+
+    # ------------------------------------------------------------------ lines as mathematical functions
+    def line_lambda(s, view, kind='float'):
+        """a 1-d view as a z3 array value (lambda j. view[j]): lets an abstract operator be applied to a whole line;
+        two applications agree when z3 proves the argument lines extensionally equal (congruence is derived)"""
+        if not isinstance(view, NDArr) or len(view.shape) != 1:
+            raise Unsupported('line_lambda of a non-1-d array')
+        fv = view.frozen()
+        j = z3.Int('j!line')        # one canonical bound name: alpha-equivalent lines become syntactically identical terms
+        body = fv.at(s, [Sym(j, 'int')])
+        body = B(body) if kind == 'bool' else R(body)
+        return z3.Lambda([j], body)
 
     def np_pad(s, a, k):
         """[A] np.pad(arr, ((a0, b0), ...), mode=): a fresh array of shape n_j + a_j + b_j with
